@@ -1178,6 +1178,9 @@ class Interp:
         if isinstance(a, Arr) or isinstance(b, Arr):
             return models_np.binop(self, op, a, b)
         if self.lenient and (isinstance(a, Opaque) or isinstance(b, Opaque)):
+            is_str = lambda x: isinstance(x, str) or (isinstance(x, Opaque) and x.cls is str)
+            if isinstance(op, ast.Add) and is_str(a) and is_str(b):
+                return Opaque("str-concat", cls=str)
             return Opaque(f"binop({type(op).__name__})")
         if isinstance(a, DynV) or isinstance(b, DynV):
             return self.dyn_binop(op, a, b)
@@ -1418,16 +1421,22 @@ class Interp:
             else:
                 args.append(self.ev(a, frame))
         kwargs = {}
+        opaque_kwargs = False
         for kw in node.keywords:
             if kw.arg is None:
                 d = self.ev(kw.value, frame)
                 if isinstance(d, PDict):
                     kwargs.update(d.items)
+                elif isinstance(d, Opaque) and self.lenient:
+                    opaque_kwargs = True
                 else:
                     raise Unsupported("** of a symbolic map in call")
             else:
                 kwargs[kw.arg] = self.ev(kw.value, frame)
         self.cur_line = node.lineno
+        if opaque_kwargs:
+            self.ex.note("opaque-call", f"call with **<opaque> at {self.where()}")
+            return self.opaque_result("call(**opaque)", args)
         return self.call(f, args, kwargs, frame)
 
     def ex_Lambda(self, node, frame):
